@@ -58,7 +58,7 @@ theorem syncCreateTask_listed (s : Sys) (jo : JobObj) (rj : Job) (tasks : List T
   cases cr with
   | ok p =>
     simp only at h ⊢
-    cases hp : podTask p with
+    cases hp : podTask s.clock p with
     | none => simp [hp] at h
     | some t =>
       simp only [hp, Option.map_some, Option.some.injEq, Prod.mk.injEq] at h
@@ -97,7 +97,7 @@ theorem syncCreateTask_listed (s : Sys) (jo : JobObj) (rj : Job) (tasks : List T
       simp only [hf] at h ⊢
       by_cases ho : p.ownerUid = some jo.uid
       · simp only [ho, if_true] at h ⊢
-        cases hp : podTask p with
+        cases hp : podTask s.clock p with
         | none => simp [hp] at h
         | some t =>
           simp only [hp, Option.map_some, Option.some.injEq, Prod.mk.injEq] at h
